@@ -21,7 +21,7 @@ theorem Shell.setJp_jp_ne (sh : Shell) (j j' : JP) (v : Val) (h : j' ≠ j) :
 theorem Shell.setJp_restore (sh : Shell) (j : JP) (w : Val) :
     (sh.setJp j w).setJp j (sh.jp j) = sh := by
   cases sh with
-  | mk jp ast cleanup loaded =>
+  | mk jp ast cleanup loaded ao co =>
     simp only [Shell.setJp]
     congr
     funext j'
@@ -104,7 +104,7 @@ theorem doStep_rel (cfg : Cfg) (st : St) (s : Step) (hf : FreshL st.next st.sh)
       cases hs with
       | inl h => exact h
       | inr h => exact absurd rfl h
-    refine ⟨[.removeCleanup (.pf st.next)], ⟨?_, ?_, ?_, Nat.le_succ _, ?_, ?_⟩⟩
+    refine ⟨[.removeCleanup st.next], ⟨?_, ?_, ?_, Nat.le_succ _, ?_, ?_⟩⟩
     · simp [doStep, hr]
     · simp only [doStep, List.foldr_cons, List.foldr_nil, applyD]
       rw [erase_append_singleton _ _ (pf_not_mem_of_fresh hf.2)]
@@ -117,7 +117,7 @@ theorem doStep_rel (cfg : Cfg) (st : St) (s : Step) (hf : FreshL st.next st.sh)
     · simp [doStep, hr]
     · simp [doStep, hr]
   | ast =>
-    refine ⟨[.removeAst (.pf st.next)], ⟨rfl, ?_, ?_, Nat.le_succ _, rfl, rfl⟩⟩
+    refine ⟨[.removeAst st.next], ⟨rfl, ?_, ?_, Nat.le_succ _, rfl, rfl⟩⟩
     · simp only [doStep, List.foldr_cons, List.foldr_nil, applyD]
       rw [erase_append_singleton _ _ (pf_not_mem_of_fresh hf.1)]
     · refine ⟨?_, fun e he => Entry.idsBelow_mono (hf.2 e he) (Nat.le_succ _)⟩
@@ -196,13 +196,13 @@ def unadv (st : St) (j : JP) : Disabler := .unadvise j (st.sh.jp j) (.adv (st.ne
 
 /-- the state a complete `_enable_internal` produces from `st` -/
 def enabledSt (cfg : Cfg) (st : St) : St :=
-  { sh := { jp := fun j => .adv (st.next + j.idx) (st.sh.jp j),
+  { sh := { st.sh with
+            jp := fun j => .adv (st.next + j.idx) (st.sh.jp j),
             ast := st.sh.ast ++ [.pf (st.next + 2)],
-            cleanup := st.sh.cleanup ++ [.pf st.next],
-            loaded := st.sh.loaded },
+            cleanup := st.sh.cleanup ++ [.pf st.next] },
     ai := { state := st.ai.state, errored := st.ai.errored,
-            disablers := st.ai.disablers ++ (if cfg.resetDisabler then [.removeCleanup (.pf st.next)] else [])
-              ++ [unadv st .ofind, .removeAst (.pf (st.next + 2)), unadv st .prun, unadv st .globalMatches,
+            disablers := st.ai.disablers ++ (if cfg.resetDisabler then [.removeCleanup st.next] else [])
+              ++ [unadv st .ofind, .removeAst (st.next + 2), unadv st .prun, unadv st .globalMatches,
                   unadv st .attrMatches, unadv st .safeExecfile, unadv st .debugger, unadv st .runWithDebugger],
             astT := true },
     next := st.next + 9 }
@@ -275,9 +275,9 @@ theorem Leaks.loaded {cfg : Cfg} {b a : Shell} (h : Leaks cfg b a) (l : Bool) : 
 /-- shape of the shell while ENABLED, relative to what `disable` would restore -/
 structure EnabledShape (cfg : Cfg) (st : St) : Prop where
   jp : ∀ j, ∃ i, st.sh.jp j = .adv i ((undo st).jp j)
-  ast : ∃ i, st.sh.ast = (undo st).ast ++ [.pf i]
-  cleanup : ∃ i pre, st.sh.cleanup = pre ++ [.pf i] ∧
-    (undo st).cleanup = if cfg.resetDisabler then pre else pre ++ [.pf i]
+  ast : ∃ i, .pf i ∈ st.sh.ast ∧ (undo st).ast = st.sh.ast.erase (.pf i)
+  cleanup : ∃ i, .pf i ∈ st.sh.cleanup ∧
+    (undo st).cleanup = if cfg.resetDisabler then st.sh.cleanup.erase (.pf i) else st.sh.cleanup
   ndis : st.ai.disablers.length = if cfg.resetDisabler then 9 else 8
   astT : st.ai.astT = true
 
@@ -308,8 +308,8 @@ theorem applyD_fresh (d : Disabler) (n : Nat) (sh : Shell) (h : FreshL n sh) : F
     split
     · simpa [FreshL, Shell.setJp] using h
     · exact h
-  | removeAst t => exact ⟨fun e he => h.1 e (List.mem_of_mem_erase he), h.2⟩
-  | removeCleanup t => exact ⟨h.1, fun e he => h.2 e (List.mem_of_mem_erase he)⟩
+  | removeAst i => exact ⟨fun e he => h.1 e (List.mem_of_mem_erase he), h.2⟩
+  | removeCleanup i => exact ⟨h.1, fun e he => h.2 e (List.mem_of_mem_erase he)⟩
 
 theorem foldr_applyD_fresh (ds : List Disabler) (n : Nat) (sh : Shell) (h : FreshL n sh) :
     FreshL n (ds.foldr applyD sh) := by
@@ -492,14 +492,16 @@ theorem inv_enable {cfg b0 st} (h : Inv cfg b0 st) (hc : Clean b0) (even : Bool)
         unfold afterCycle
         cases cfg.resetDisabler <;> simp [enabledSt]
       · rw [hundo]
-        refine ⟨st1.next + 2, ?_⟩
+        refine ⟨st1.next + 2, by simp [enabledSt], ?_⟩
+        have h2 : Entry.pf (st1.next + 2) ∉ st1.sh.ast :=
+          pf_not_mem_of_fresh (fun e he => Entry.idsBelow_mono (hf1.1 e he) (Nat.le_add_right _ _))
         unfold afterCycle
-        cases cfg.resetDisabler <;> simp [enabledSt]
+        cases cfg.resetDisabler <;> simp [enabledSt, erase_append_singleton _ _ h2]
       · rw [hundo]
-        refine ⟨st1.next, st1.sh.cleanup, ?_, ?_⟩
-        · simp [enabledSt]
-        · unfold afterCycle
-          cases cfg.resetDisabler <;> simp
+        refine ⟨st1.next, by simp [enabledSt], ?_⟩
+        have h1' : Entry.pf st1.next ∉ st1.sh.cleanup := pf_not_mem_of_fresh hf1.2
+        unfold afterCycle
+        cases cfg.resetDisabler <;> simp [enabledSt, erase_append_singleton _ _ h1']
       · simp only [enabledSt, hst1d]
         cases cfg.resetDisabler <;> simp
 
@@ -540,7 +542,7 @@ theorem inv_loadExt {cfg b0 st} (h : Inv cfg b0 st) (hc : Clean b0) (fail : Opti
   · exact h
   · exact inv_setLoaded (inv_enable h hc true fail) true
 
-theorem inv_step {cfg b0 st} (h : Inv cfg b0 st) (hc : Clean b0) (op : Op) (hop : op.isFresh = false) :
+theorem inv_step {cfg b0 st} (h : Inv cfg b0 st) (hc : Clean b0) (op : Op) (hop : op.notPlain = false) :
     Inv cfg b0 (step cfg st op) := by
   cases op with
   | enable even fail => exact inv_enable h hc even fail
@@ -557,10 +559,11 @@ theorem inv_step {cfg b0 st} (h : Inv cfg b0 st) (hc : Clean b0) (op : Op) (hop 
     rcases invoke_st_cases cfg st hk o with e | e
     · rw [e]; exact h
     · rw [e]; exact (inv_disable' h true).1
-  | freshImporter => simp [Op.isFresh] at hop
+  | freshImporter => simp [Op.notPlain, Op.isFresh] at hop
+  | foreign f => simp [Op.notPlain, Op.isForeign] at hop
 
 theorem inv_run {cfg b0} (hc : Clean b0) : ∀ (ops : List Op) (st : St), Inv cfg b0 st →
-    (∀ op ∈ ops, op.isFresh = false) → Inv cfg b0 (run cfg st ops) := by
+    (∀ op ∈ ops, op.notPlain = false) → Inv cfg b0 (run cfg st ops) := by
   intro ops
   induction ops with
   | nil => intro st h _; exact h
@@ -588,6 +591,17 @@ theorem start_init : Start St.init := by
 theorem any_isPf_append_pf (l : List Entry) (i : Nat) : (l ++ [Entry.pf i]).any Entry.isPf = true := by
   simp [Entry.isPf]
 
+theorem count_erase_pf {l : List Entry} {i : Nat} (h : Entry.pf i ∈ l) :
+    count Entry.isPf l = count Entry.isPf (l.erase (.pf i)) + 1 := by
+  have hp := (List.perm_cons_erase h).filter Entry.isPf
+  have := hp.length_eq
+  simpa [count, List.filter_cons, Entry.isPf] using this
+
+theorem length_erase_pf {l : List Entry} {i : Nat} (h : Entry.pf i ∈ l) :
+    l.length = (l.erase (.pf i)).length + 1 := by
+  have := (List.perm_cons_erase h).length_eq
+  simpa using this
+
 theorem inv_installed_enabled {cfg b0 st} (h : Inv cfg b0 st) (he : st.ai.state = .enabled) (hk : HookId) :
     installed st.sh hk = true := by
   rcases h.phase with ⟨h1, _⟩ | ⟨_, _, sh⟩
@@ -595,8 +609,8 @@ theorem inv_installed_enabled {cfg b0 st} (h : Inv cfg b0 st) (he : st.ai.state 
   · have hj : ∀ j, (st.sh.jp j).hasAspect = true := by
       intro j; obtain ⟨i, e⟩ := sh.jp j; rw [e]; rfl
     cases hk <;> simp only [installed, hj]
-    · obtain ⟨i, e⟩ := sh.ast; rw [e]; exact any_isPf_append_pf _ _
-    · obtain ⟨i, pre, e, _⟩ := sh.cleanup; rw [e]; exact any_isPf_append_pf _ _
+    · obtain ⟨i, hm, _⟩ := sh.ast; exact List.any_eq_true.mpr ⟨_, hm, rfl⟩
+    · obtain ⟨i, hm, _⟩ := sh.cleanup; exact List.any_eq_true.mpr ⟨_, hm, rfl⟩
 
 theorem inv_jp_disabled {cfg b0 st} (h : Inv cfg b0 st) (hd : st.ai.state = .disabled) :
     st.sh.jp = b0.jp ∧ st.sh.ast = b0.ast := by
@@ -748,7 +762,7 @@ theorem abs_invoke {cfg b0 st} (h : Inv cfg b0 st) (hc : Clean b0) (hk : HookId)
       unfold raiseIn
       cases hp : prot cfg hk k <;> simp [refStep, hp, abs, he, herr, abs_disable, disable, foldr_applyD_loaded]
 
-theorem abs_step {cfg b0 st} (h : Inv cfg b0 st) (hc : Clean b0) (op : Op) (hop : op.isFresh = false) :
+theorem abs_step {cfg b0 st} (h : Inv cfg b0 st) (hc : Clean b0) (op : Op) (hop : op.notPlain = false) :
     abs (step cfg st op) = refStep cfg (abs st) op := by
   cases op with
   | enable even fail => exact abs_enable h even fail
@@ -768,6 +782,184 @@ theorem abs_step {cfg b0 st} (h : Inv cfg b0 st) (hc : Clean b0) (op : Op) (hop 
       rw [abs_loadExt h fail]
       simp [abs, hl]
   | invoke hk o => exact abs_invoke h hc hk o
-  | freshImporter => simp [Op.isFresh] at hop
+  | freshImporter => simp [Op.notPlain, Op.isFresh] at hop
+  | foreign f => simp [Op.notPlain, Op.isForeign] at hop
+
+/-! ### third-party steps on the hook registries
+
+The disablers of the code remove pyflyby's entries from whatever list is bound *now* and touch nothing
+else, so they commute with everything a third party does to the lists (`applyD_applyForeign`).  Hence
+`disable` after any interleaving of foreign list steps yields the shell the foreign steps alone would have
+produced. -/
+
+theorem applyForeign_jp (f : Foreign) (sh : Shell) : (applyForeign f sh).jp = sh.jp := by
+  cases f <;> rfl
+
+theorem applyForeign_loaded (f : Foreign) (sh : Shell) : (applyForeign f sh).loaded = sh.loaded := by
+  cases f <;> rfl
+
+theorem erase_pf_append_ext (l : List Entry) (i n : Nat) :
+    (l ++ [Entry.ext n]).erase (.pf i) = l.erase (.pf i) ++ [.ext n] := by
+  rw [List.erase_append]
+  split
+  · rfl
+  · rename_i h
+    rw [List.erase_of_not_mem h]
+    simp
+
+theorem applyD_applyForeign (d : Disabler) (f : Foreign) (sh : Shell) :
+    applyD d (applyForeign f sh) = applyForeign f (applyD d sh) := by
+  cases d with
+  | unadvise j p w =>
+    simp only [applyD, applyForeign_jp]
+    split
+    · cases f <;> rfl
+    · rfl
+  | removeAst i =>
+    cases f <;> simp [applyD, applyForeign, erase_pf_append_ext, List.erase_comm]
+  | removeCleanup i =>
+    cases f <;> simp [applyD, applyForeign, erase_pf_append_ext, List.erase_comm]
+
+theorem foldr_applyD_applyForeign (ds : List Disabler) (f : Foreign) (sh : Shell) :
+    ds.foldr applyD (applyForeign f sh) = applyForeign f (ds.foldr applyD sh) := by
+  induction ds with
+  | nil => rfl
+  | cons d ds ih => simp only [List.foldr_cons, ih, applyD_applyForeign]
+
+theorem undo_foreign (st : St) (f : Foreign) :
+    undo { st with sh := applyForeign f st.sh } = applyForeign f (undo st) :=
+  foldr_applyD_applyForeign _ _ _
+
+theorem applyForeign_fresh (f : Foreign) (n : Nat) (sh : Shell) (h : FreshL n sh) : FreshL n (applyForeign f sh) := by
+  cases f with
+  | rebindAst => exact h
+  | rebindCleanup => exact h
+  | other => exact h
+  | addAst k =>
+    refine ⟨?_, h.2⟩
+    intro e he
+    simp only [applyForeign, List.mem_append, List.mem_singleton] at he
+    rcases he with he | he
+    · exact h.1 e he
+    · subst he; trivial
+  | rmAst k => exact ⟨fun e he => h.1 e (List.mem_of_mem_erase he), h.2⟩
+  | addCleanup k =>
+    refine ⟨h.1, ?_⟩
+    intro e he
+    simp only [applyForeign, List.mem_append, List.mem_singleton] at he
+    rcases he with he | he
+    · exact h.2 e he
+    · subst he; trivial
+  | rmCleanup k => exact ⟨h.1, fun e he => h.2 e (List.mem_of_mem_erase he)⟩
+
+theorem applyForeign_clean (f : Foreign) (b : Shell) (h : Clean b) : Clean (applyForeign f b) := by
+  refine ⟨fun j => by rw [applyForeign_jp]; exact h.jp j, ?_⟩
+  cases f with
+  | addAst k =>
+    intro e he
+    simp only [applyForeign, List.mem_append, List.mem_singleton] at he
+    rcases he with he | he
+    · exact h.ast e he
+    · subst he; rfl
+  | rmAst k => exact fun e he => h.ast e (List.mem_of_mem_erase he)
+  | rebindAst => exact h.ast
+  | rebindCleanup => exact h.ast
+  | addCleanup k => exact h.ast
+  | rmCleanup k => exact h.ast
+  | other => exact h.ast
+
+theorem Leaks.foreign {cfg : Cfg} {b a : Shell} (h : Leaks cfg b a) (hfix : cfg.resetDisabler = true) (f : Foreign) :
+    Leaks cfg (applyForeign f b) (applyForeign f a) := by
+  obtain ⟨leak, e, _, r⟩ := h.cleanup
+  rw [r hfix, List.append_nil] at e
+  have hj := h.jp
+  have ha := h.ast
+  refine ⟨by rw [applyForeign_jp, applyForeign_jp, hj], ?_, [], ?_, by simp, fun _ => rfl⟩
+  · cases f <;> simp [applyForeign, ha]
+  · cases f <;> simp [applyForeign, e]
+
+theorem mem_pf_applyForeign_ast (f : Foreign) (sh : Shell) (i : Nat) (h : Entry.pf i ∈ sh.ast) :
+    Entry.pf i ∈ (applyForeign f sh).ast := by
+  cases f <;> simp only [applyForeign] <;> first
+    | exact h
+    | exact List.mem_append_left _ h
+    | exact (List.mem_erase_of_ne (by simp)).mpr h
+
+theorem mem_pf_applyForeign_cleanup (f : Foreign) (sh : Shell) (i : Nat) (h : Entry.pf i ∈ sh.cleanup) :
+    Entry.pf i ∈ (applyForeign f sh).cleanup := by
+  cases f <;> simp only [applyForeign] <;> first
+    | exact h
+    | exact List.mem_append_left _ h
+    | exact (List.mem_erase_of_ne (by simp)).mpr h
+
+theorem erase_pf_applyForeign_ast (f : Foreign) (a u : Shell) (i : Nat) (h : u.ast = a.ast.erase (.pf i)) :
+    (applyForeign f u).ast = (applyForeign f a).ast.erase (.pf i) := by
+  cases f <;> simp [applyForeign, h, erase_pf_append_ext, List.erase_comm]
+
+theorem erase_pf_applyForeign_cleanup (f : Foreign) (a u : Shell) (i : Nat) (h : u.cleanup = a.cleanup.erase (.pf i)) :
+    (applyForeign f u).cleanup = (applyForeign f a).cleanup.erase (.pf i) := by
+  cases f <;> simp [applyForeign, h, erase_pf_append_ext, List.erase_comm]
+
+/-- A third-party list step keeps the invariant, relative to the base shell with the same step applied. -/
+theorem inv_foreign {cfg b0 st} (h : Inv cfg b0 st) (hfix : cfg.resetDisabler = true) (f : Foreign) :
+    Inv cfg (applyForeign f b0) { st with sh := applyForeign f st.sh } := by
+  refine ⟨applyForeign_fresh f _ _ h.fresh, ?_, ?_⟩
+  · rw [undo_foreign]; exact h.leaks.foreign hfix f
+  · rcases h.phase with hp | ⟨h1, h2, shp⟩
+    · exact Or.inl hp
+    · refine Or.inr ⟨h1, h2, ?_⟩
+      obtain ⟨i, hm, e⟩ := shp.ast
+      obtain ⟨k, hmc, ec⟩ := shp.cleanup
+      simp only [hfix, if_true] at ec
+      refine ⟨?_, ?_, ?_, shp.ndis, shp.astT⟩
+      · intro j
+        obtain ⟨i', e'⟩ := shp.jp j
+        refine ⟨i', ?_⟩
+        rw [undo_foreign, applyForeign_jp]
+        simpa [applyForeign_jp] using e'
+      · refine ⟨i, mem_pf_applyForeign_ast f _ _ hm, ?_⟩
+        rw [undo_foreign]
+        exact erase_pf_applyForeign_ast f _ _ _ e
+      · refine ⟨k, mem_pf_applyForeign_cleanup f _ _ hmc, ?_⟩
+        rw [undo_foreign]
+        simp only [hfix, if_true]
+        exact erase_pf_applyForeign_cleanup f _ _ _ ec
+
+/-- the shell the third-party steps of a history would have produced on their own -/
+def foreignBase : Shell → List Op → Shell
+  | b, [] => b
+  | b, .foreign f :: ops => foreignBase (applyForeign f b) ops
+  | b, _ :: ops => foreignBase b ops
+
+/-- the invariant along histories that contain third-party list steps (D3 repair assumed) -/
+theorem inv_run_foreign {cfg : Cfg} (hfix : cfg.resetDisabler = true) :
+    ∀ (ops : List Op) (b0 : Shell) (st : St), Clean b0 → Inv cfg b0 st →
+      (∀ op ∈ ops, op.isFresh = false) →
+      Inv cfg (foreignBase b0 ops) (run cfg st ops) ∧ Clean (foreignBase b0 ops) := by
+  intro ops
+  induction ops with
+  | nil => intro b0 st hc h _; exact ⟨h, hc⟩
+  | cons op ops ih =>
+    intro b0 st hc h hop
+    have hop' : ∀ o ∈ ops, o.isFresh = false := fun o ho => hop o (List.mem_cons_of_mem _ ho)
+    have h1 := hop op List.mem_cons_self
+    simp only [run, List.foldl_cons]
+    cases op with
+    | foreign f =>
+      simp only [foreignBase, step]
+      exact ih _ _ (applyForeign_clean f b0 hc) (inv_foreign h hfix f) hop'
+    | freshImporter => simp [Op.isFresh] at h1
+    | enable e fl =>
+      exact ih _ _ hc (inv_step h hc _ (by simp [Op.notPlain, Op.isFresh, Op.isForeign])) hop'
+    | disable =>
+      exact ih _ _ hc (inv_step h hc _ (by simp [Op.notPlain, Op.isFresh, Op.isForeign])) hop'
+    | loadExt fl =>
+      exact ih _ _ hc (inv_step h hc _ (by simp [Op.notPlain, Op.isFresh, Op.isForeign])) hop'
+    | unloadExt =>
+      exact ih _ _ hc (inv_step h hc _ (by simp [Op.notPlain, Op.isFresh, Op.isForeign])) hop'
+    | reloadExt fl =>
+      exact ih _ _ hc (inv_step h hc _ (by simp [Op.notPlain, Op.isFresh, Op.isForeign])) hop'
+    | invoke hk o =>
+      exact ih _ _ hc (inv_step h hc _ (by simp [Op.notPlain, Op.isFresh, Op.isForeign])) hop'
 
 end Pfb.Hooks
